@@ -17,8 +17,11 @@ import (
 // it runs, or — if it runs — a global rollback removes exactly the rows it inserted (cases c01-k*).
 func runC01MixedKeys(c *Ctx, w *ATWorld) {
 	n := 0
-	for _, gen := range []string{"NULL", "0", "DEFAULT"} {
-		for _, order := range []string{"generated-first", "given-first", "given-between"} {
+	for _, gen := range []string{"NULL", "0", "DEFAULT", "'0'", "0.0"} {
+		for _, order := range []string{"generated-first", "given-first", "given-between", "alone"} {
+			if order == "alone" && gen != "'0'" && gen != "0.0" {
+				continue // (a single row with NULL / 0 / DEFAULT is what atgen's AutoForm generates)
+			}
 			n++
 			cid := fmt.Sprintf("c01-k%d", n)
 			if !c.Want(cid) {
@@ -34,6 +37,7 @@ func runC01MixedKeys(c *Ctx, w *ATWorld) {
 				"generated-first": "(" + gen + ", 'a'), (100, 'b')",
 				"given-first":     "(100, 'b'), (" + gen + ", 'a')",
 				"given-between":   "(" + gen + ", 'a'), (100, 'b'), (" + gen + ", 'c')",
+				"alone":           "(" + gen + ", 'a')", // a zero that is not written as the integer 0: the database assigns the key all the same
 			}[order]
 			q := "INSERT INTO " + t + " (id, v) VALUES " + rows
 			before := w.DumpTable(t)
@@ -69,7 +73,7 @@ func runC01MixedKeys(c *Ctx, w *ATWorld) {
 			if execErr != nil && mid == before {
 				obs = "refused"
 			}
-			c.Out.Case(cid, "C01", "route insert "+map[string]string{"generated-first": "- k", "given-first": "k -", "given-between": "- k -"}[order], obs)
+			c.Out.Case(cid, "C01", "route insert "+map[string]string{"generated-first": "- k", "given-first": "k -", "given-between": "- k -", "alone": "-"}[order], obs)
 			c.Out.Oracle(cid, class == "", class, fmt.Sprintf("%s | err=%v before=%s mid=%s final=%s rollback-ok=%v crash=%s", q, execErr, before, mid, final, allOK, crash))
 			c.Out.Tag(cid, "nontrivial=1")
 			c.Out.Count("mixed-keys." + order)
